@@ -2,6 +2,7 @@
 EXTENDS Rule, Json
 
 CONSTANTS MaxConds, MaxBatches, MaxPts, CondMode   \* CondMode: "all" | "some" | "sched" (rules with a schedule condition)
+                                                   \*   | "feedback" (a condition watches the point the rule's own action writes)
 
 Nodes == {"A", "B"}
 Cond(nf, tf, kf, vt, op, thr, txt) == [nodeF |-> nf, typeF |-> tf, keyF |-> kf, vt |-> vt, op |-> op, thr |-> thr, txt |-> txt]
@@ -17,13 +18,19 @@ SomeConds == {Cond("A", "v", "", "number", ">", 1, ""), Cond("", "v", "k", "numb
 CondSet == IF CondMode = "all" THEN AllConds ELSE SomeConds
 \* "sched": every rule has a schedule condition, alone or next to a point condition (either order)
 SchedMix == {Cond("A", "v", "", "number", ">", 1, ""), Cond("", "w", "", "text", "contains", 0, "a")}
-CondSeqs == IF CondMode = "sched"
+FeedbackConds == {<<Cond("A", "v", "", "number", "=", 0, "")>>, <<Cond("", "v", "", "number", "<", 1, "")>>,
+                  <<Cond("A", "v", "", "number", "=", 0, ""), Cond("", "w", "", "text", "contains", 0, "a")>>}
+CondSeqs == IF CondMode = "feedback" THEN FeedbackConds ELSE IF CondMode = "sched"
             THEN {<<sc>> : sc \in SchedConds} \cup {<<sc, c>> : sc \in SchedConds, c \in SchedMix}
                  \cup {<<c, sc>> : sc \in SchedConds, c \in SchedMix}
             ELSE UNION {[1..n -> CondSet] : n \in 0..MaxConds}
 
 Act(t, v, x) == [target |-> t, ptype |-> "out", val |-> v, txt |-> x]
 ActLists == {<<>>, <<Act("T1", 1, "")>>, <<Act("T1", 5, "on"), Act("T2", 0, "x")>>}
+\* feedback: the active list sets A's v to 1 (which the conditions above read as "not satisfied"),
+\* the inactive list is empty - every cascade ends after two batches
+FeedbackA == {<<[target |-> "A", ptype |-> "v", val |-> 1, txt |-> ""]>>,
+              <<[target |-> "T1", ptype |-> "out", val |-> 1, txt |-> ""], [target |-> "A", ptype |-> "v", val |-> 1, txt |-> ""]>>}
 
 Pts == {[type |-> t, key |-> k, val |-> v, txt |-> x] : t \in {"v", "w"}, k \in {"k", "j"}, v \in {0, 1, 2}, x \in {"", "a", "ab"}}
 \* values and texts are correlated to keep the alphabet small: v-points carry numbers, w-points carry texts
@@ -39,7 +46,9 @@ BatchesOf == IF CondMode = "sched"
 VARIABLES cfg, st, hist
 rvars == <<cfg, st, hist>>
 
-Init == /\ \E cs \in CondSeqs, a \in ActLists, i \in ActLists : cfg = [conds |-> cs, actA |-> a, actI |-> i]
+Init == /\ IF CondMode = "feedback"
+           THEN \E cs \in CondSeqs, a \in FeedbackA : cfg = [conds |-> cs, actA |-> a, actI |-> <<>>]
+           ELSE \E cs \in CondSeqs, a \in ActLists, i \in ActLists : cfg = [conds |-> cs, actA |-> a, actI |-> i]
         \* (a rule that starts with its configuration complete evaluates nothing until the first point
         \* arrives; its own 10 s schedule tick is outside the behaviours' time span)
         /\ st = [cond |-> [i \in 1..Len(cfg.conds) |-> FALSE], rule |-> FALSE]
@@ -49,7 +58,7 @@ Init == /\ \E cs \in CondSeqs, a \in ActLists, i \in ActLists : cfg = [conds |->
 TickBatch == <<[type |-> "trigger", key |-> "tick", val |-> 1, txt |-> ""]>>
 Next == /\ Len(hist) < MaxBatches
         /\ \E n \in Nodes, pts \in BatchesOf \cup (IF CondMode = "sched" /\ Len(hist) = MaxBatches - 1 THEN {TickBatch} ELSE {}) :
-             LET b == Batch(cfg.conds, cfg.actA, cfg.actI, st, n, pts)
+             LET b == Cascade(cfg.conds, cfg.actA, cfg.actI, st, n, pts, 3)
              IN /\ st' = [cond |-> b.cond, rule |-> b.rule]
                 /\ hist' = Append(hist, [node |-> n, pts |-> pts, cond |-> b.cond, rule |-> b.rule, em |-> b.em])
                 /\ UNCHANGED cfg
